@@ -21,3 +21,5 @@ open Verif.Props.C06
 #print axioms cdend_any_split
 #print axioms cdend_count_carried
 #print axioms xml_no_cdend
+#print axioms pi_attr_verbatim
+#print axioms pi_tokens_verbatim
